@@ -66,6 +66,48 @@ func c13UnaryCase(a alpha.Val) (key, detail string) {
 	return "", ""
 }
 
+// c13NeighbourCase: Equal / IsZero / IsOne against every canonical scalar whose stored limbs differ from a's in
+// exactly one bit (bits 0, 31, 32, 63 of each limb).
+func c13NeighbourCase(a alpha.Val) (key, detail string, n int) {
+	s := scalarRaw(a.Raw)
+
+	if got := s.IsZero(); got != (a.V.Sign() == 0) {
+		return "IsZero/wrong", fmt.Sprintf("a=%x IsZero=%v", a.V, got), n
+	}
+
+	if got := s.IsOne(); got != (a.V.Cmp(big.NewInt(1)) == 0) {
+		return "IsOne/wrong", fmt.Sprintf("a=%x IsOne=%v", a.V, got), n
+	}
+
+	for i := 0; i < 4; i++ {
+		for _, k := range []uint{0, 31, 32, 63} {
+			raw := a.Raw
+			raw[i] ^= 1 << k
+
+			if !canonicalLimbs(raw, nLimbs) {
+				continue
+			}
+
+			n++
+			t := scalarRaw(raw)
+
+			if s.Equal(t) != 0 || t.Equal(s) != 0 {
+				return "Equal/wrong", fmt.Sprintf("limbs %x vs %x (differ in bit %d of limb %d) compare equal", a.Raw, raw, k, i), n
+			}
+
+			if a.V.Sign() == 0 && t.IsZero() {
+				return "IsZero/wrong", fmt.Sprintf("limbs %x: IsZero=true", raw), n
+			}
+
+			if a.V.Cmp(big.NewInt(1)) == 0 && t.IsOne() {
+				return "IsOne/wrong", fmt.Sprintf("limbs %x: IsOne=true", raw), n
+			}
+		}
+	}
+
+	return "", "", n
+}
+
 // c13SelectCase: shape "fresh" (receiver distinct), "recv=u", "recv=v", "u=v", "nil-u", "nil-v", "nil-both".
 func c13SelectCase(cond uint64, u, v, prev alpha.Val, shape string) (key, detail string) {
 	su, sv, s := scalarRaw(u.Raw), scalarRaw(v.Raw), scalarRaw(prev.Raw)
@@ -201,6 +243,21 @@ func C13(r *ev.Report) {
 		r.Count("pairs_where_limb_order_differs", disagree)
 	})
 
+	rich := alpha.Values(ref.N, 2)
+	r.Bound("predicate_values", len(rich))
+	r.States.Add(int64(len(rich)))
+
+	r.ParFor(len(rich), func(_, i int) {
+		key, detail, n := c13NeighbourCase(rich[i])
+		r.Transitions.Add(int64(2*n + 2))
+		r.Evals.Add(1)
+		r.Count("single_bit_neighbours", int64(n))
+
+		if key != "" {
+			r.Violation(key, detail, Case{"op": "neighbour", "a": hx(rich[i].V)})
+		}
+	})
+
 	conds := condAlphabet(level)
 	nm1 := valOf(new(big.Int).Sub(ref.N, big.NewInt(1)))
 	pat1 := valOf(ref.OS2IP([]byte("\x0f\x1e\x2d\x3c\x4b\x5a\x69\x78\x87\x96\xa5\xb4\xc3\xd2\xe1\xf0\x0f\x1e\x2d\x3c\x4b\x5a\x69\x78\x87\x96\xa5\xb4\xc3\xd2\xe1\xf0")))
@@ -246,6 +303,8 @@ func init() {
 			key, detail = c13PairCase(valOf(unhx(c["a"])), valOf(unhx(c["b"])))
 		case "unary":
 			key, detail = c13UnaryCase(valOf(unhx(c["a"])))
+		case "neighbour":
+			key, detail, _ = c13NeighbourCase(valOf(unhx(c["a"])))
 		case "cselect":
 			var cond uint64
 			fmt.Sscan(c["cond"], &cond)
